@@ -222,7 +222,19 @@ def lang_scenarios():
                 ('%s in Fill(frozenset)' % cls.__name__, cls, Fill(frozenset([Spec(b)]))),
                 ('%s in Fill([(..)])' % cls.__name__, cls, Fill([(1, Spec(b))])),
                 ('%s in Fill({k: ..})' % cls.__name__, cls, Fill({'k': Spec(b)})),
-                ('%s in an Iter consumed by a later step' % cls.__name__, cls, (Iter(b), list))]
+                ('%s in an Iter consumed by a later step' % cls.__name__, cls, (Iter(b), list)),
+                # ARGUMENT mode (arg_val): tuple / set / frozenset / list / dict literals holding a spec that raises
+                ('%s in a T-call argument' % cls.__name__, cls, T.get(Spec(b)), lambda: {'a': 1}),
+                ('%s in a T-call keyword argument' % cls.__name__, cls, T.get('q', default=Spec(b)) if False else T.pop('a', Spec(b)), lambda: {'a': 1}),
+                ('%s in Call(args=(..))' % cls.__name__, cls, glom.Call(max, args=(Spec(b), 2)), lambda: {'a': 1}),
+                ('%s in a tuple default' % cls.__name__, cls, glom.Coalesce('x', default=(Spec(b), 0)), lambda: {'a': 1}),
+                ('%s in a set default' % cls.__name__, cls, glom.Coalesce('x', default={Spec(b)}), lambda: {'a': 1}),
+                ('%s in a frozenset default' % cls.__name__, cls, glom.Coalesce('x', default=frozenset([Spec(b)])), lambda: {'a': 1}),
+                ('%s in a list default' % cls.__name__, cls, glom.Coalesce('x', default=[Spec(b), 0]), lambda: {'a': 1}),
+                ('%s in a dict default' % cls.__name__, cls, glom.Coalesce('x', default={'k': (Spec(b),)}), lambda: {'a': 1}),
+                ('%s in S(x=(..))' % cls.__name__, cls, glom.S(x=(Spec(b), 1)), lambda: {'a': 1}),
+                ('%s in an index tuple' % cls.__name__, cls, T[(Spec(b), 1)]),
+                ('%s in Invoke.specs' % cls.__name__, cls, glom.Invoke(max).specs(b, T), lambda: {'a': 1})]
     class RegistryMiss(LookupError):
         pass
 
